@@ -11,11 +11,17 @@
      - a text that contains no brace is exactly ONE Raw element spanning all of it followed by EOI
        (no_markup_is_one_raw): with parser.rs's `Raw -> Text(span)` and Text::render_to's plain
        write this is "a template without markup renders to itself"; the empty text has no element.
+     - the delimiter rules and the Raw rule, exactly, on every text (RawProofs): an opening delimiter is
+       `whitespace* {%-` (resp. `{{-`) or else the bare `{%` (`{{`); a closing delimiter is `-%}` (`-}}`)
+       TOGETHER WITH the maximal whitespace run after it (right trim) or else the bare `%}` (`}}`); Raw is
+       the longest prefix in which no position starts markup (raw_rule_exact, raw_len), where a
+       whitespace run in front of a trim-marked opener is markup — so it is NOT part of the text element
+       (left_trim_excludes_whitespace) — and in front of a plain opener it is text
+       (plain_opener_keeps_whitespace).
    Not proved (decided by the structural oracle and the pair-stream correspondence of
    tools/props/c03.py on every generated template): the same for texts with stray single braces
-   (a brace not followed by a brace or percent sign), that Raw is in general the maximal markup-free
-   text, the span recovery of raw blocks and the discarding of comments. *)
-From LV Require Import Base Peg Grammar PegProofs.
+   (a brace not followed by a brace or percent sign) as a one-element statement, the span recovery of raw blocks and the discarding of comments. *)
+From LV Require Import Base Peg Grammar PegProofs RawProofs.
 
 Theorem whitespace_rule : forall fuel la s pos, 6 <= fuel ->
   ev liquid_grammar liquid_ws fuel Atomic la (PRef r_WHITESPACE) s pos =
@@ -55,6 +61,37 @@ Proof. exact PegProofs.start_fails. Qed.
 
 (* non-vacuity: "a \t\r\n{{- 1 -}}\n b" lexes to Raw "a", the output tag from 1 to 15, Raw "b": both
    whitespace runs, tab and CRLF included, belong to the trimmed tag *)
+(* the delimiters, exactly *)
+Theorem opening_delimiter_exact : forall which plain trim at_ la s pos fuel,
+  (which = r_TagStart /\ plain = open_tag /\ trim = open_tag_trim) \/ (which = r_ExpressionStart /\ plain = open_exp /\ trim = open_exp_trim) ->
+  at_ <> NonAtomic -> 12 + length s <= fuel ->
+  ev liquid_grammar liquid_ws fuel at_ la (PRef which) s pos = Some (start_spec plain trim s pos).
+Proof. exact RawProofs.start_exact. Qed.
+Theorem closing_delimiter_exact : forall which plain trim at_ la s pos fuel,
+  (which = r_TagEnd /\ plain = close_tag /\ trim = close_tag_trim) \/ (which = r_ExpressionEnd /\ plain = close_exp /\ trim = close_exp_trim) ->
+  at_ <> NonAtomic -> 14 + length s <= fuel ->
+  ev liquid_grammar liquid_ws fuel at_ la (PRef which) s pos = Some (end_spec plain trim s pos).
+Proof. exact RawProofs.end_exact. Qed.
+(* the text element, exactly: up to the first position where markup starts *)
+Theorem raw_rule_exact : forall s pos fuel, 20 + length s <= fuel ->
+  ev liquid_grammar liquid_ws fuel Compound false (PRef r_Raw) s pos =
+  Some (match raw_len s with 0 => None | n => Some (skipn n s, pos + n, [mkTok r_Raw pos (pos + n)]) end).
+Proof. exact RawProofs.raw_rule_exact. Qed.
+Theorem left_trim_excludes_whitespace : forall t w rest,
+  no_brace t = true -> ends_nonws t = true -> all_ws w = true -> opener_trim rest = true ->
+  raw_len (t ++ w ++ rest) = length t.
+Proof. exact RawProofs.left_trim_excludes_whitespace. Qed.
+Theorem plain_opener_keeps_whitespace : forall t w rest,
+  no_brace t = true -> all_ws w = true -> opener rest = true -> opener_trim rest = false ->
+  raw_len (t ++ w ++ rest) = length t + length w.
+Proof. exact RawProofs.plain_opener_keeps_whitespace. Qed.
+(* non-vacuity: "ab \t\n{{- x }}" has a text element of 2 characters, "ab \t\n{{ x }}" one of 5;
+   "-}} \n x" closes and takes the 2 whitespace characters *)
+Example trim_nonvacuous :
+  raw_len [97;98;32;9;10;123;123;45;32;120;32;125;125]%N = 2 /\ raw_len [97;98;32;9;10;123;123;32;120;32;125;125]%N = 5 /\
+  end_spec close_exp close_exp_trim [45;125;125;32;10;120]%N 7 = Some ([120]%N, 12, []).
+Proof. vm_compute. repeat split; reflexivity. Qed.
+
 Example c03_nonvacuous :
   match parse liquid_grammar liquid_ws 300 r_LaxLiquidFile [97;32;9;13;10;123;123;45;32;49;32;45;125;125;10;32;98]%N with
   | Some (Some (_, _, ts)) =>
@@ -71,3 +108,8 @@ Print Assumptions whitespace_run_exact_any_mode.
 Print Assumptions no_markup_is_one_raw.
 Print Assumptions empty_text_is_no_element.
 Print Assumptions no_delimiter_without_brace.
+Print Assumptions opening_delimiter_exact.
+Print Assumptions closing_delimiter_exact.
+Print Assumptions raw_rule_exact.
+Print Assumptions left_trim_excludes_whitespace.
+Print Assumptions plain_opener_keeps_whitespace.
